@@ -35,6 +35,8 @@ pub struct Sys {
     rules: Vec<&'static str>,
     specific_r1: bool,
     selective_reexport: bool,
+    /// import-graph mode: every module exists from the start and the alphabet is plain imports (and deletes / creates)
+    graph_only: bool,
     pub undefined: u64,
 }
 
@@ -51,7 +53,16 @@ fn pat(p: &str, name: &str) -> bool {
 
 impl Sys {
     pub fn new(modules: &[&'static str], rules: &[&'static str], specific_r1: bool) -> Self {
-        Sys { mm: ModuleManager::new(), modules: modules.to_vec(), rules: rules.to_vec(), specific_r1, selective_reexport: false, undefined: 0 }
+        Sys { mm: ModuleManager::new(), modules: modules.to_vec(), rules: rules.to_vec(), specific_r1, selective_reexport: false, graph_only: false, undefined: 0 }
+    }
+    /// every module of the alphabet is created up front; letters are imports between every ordered pair (incl. self)
+    pub fn graph_only(modules: &[&'static str]) -> Self {
+        let mut s = Sys::new(modules, &[], false);
+        s.graph_only = true;
+        for m in modules.iter().skip(1) {
+            s.mm.create_module(*m).unwrap_or_else(|e| crate::explore::machinery(&format!("C18 create_module: {:?}", e)));
+        }
+        s
     }
     pub fn with_selective_reexport(mut self) -> Self {
         self.selective_reexport = true;
@@ -243,6 +254,14 @@ impl System for Sys {
     fn enabled(&self) -> Vec<Op> {
         let mut v = vec![];
         let ms = &self.modules;
+        if self.graph_only {
+            for to in ms {
+                for from in ms {
+                    v.push(Op::Import(to, from, true, "*"));
+                }
+            }
+            return v;
+        }
         for m in ms.iter().skip(1) {
             v.push(Op::Create(m));
         }
@@ -360,6 +379,22 @@ pub fn run(opts: &Opts) -> Vec<Report> {
         Tier::Thorough => vec![("modules_3m_2r_len7", vec!["MAIN", "A", "B"], vec!["r1", "q"], false, 7), ("modules_selective_reexport_3m_2r_len7", vec!["MAIN", "A", "B"], vec!["r1", "q"], false, 7), ("modules_4m_3r_len5", vec!["MAIN", "A", "B", "C"], vec!["r1", "r2", "q"], true, 5)],
     };
     let mut out = vec![];
+    // import graphs: all modules exist, every sequence of imports (the cycle search has to look past leaf modules and
+    // through modules with several imports; which sibling it visits first depends on a hash order, so the closure is
+    // run from several fresh managers)
+    let (gname, gmods, gdepth, roots): (&str, Vec<&'static str>, usize, usize) = if opts.tier == Tier::Quick { ("import_graphs_4m_len6", vec!["MAIN", "A", "B", "C"], 6, 6) } else { ("import_graphs_5m_len6", vec!["MAIN", "A", "B", "C", "D"], 6, 8) };
+    if crate::props::wants(opts, gname) {
+        let mut total = Report::new(gname);
+        for root in 0..roots {
+            let mut cfg = Config::new(gname, gdepth);
+            cfg.ctx = json!({"modules": gmods, "graph_only": true, "root": root});
+            cfg.expected_letters = ["import"].iter().map(|s| s.to_string()).collect();
+            let m2 = gmods.clone();
+            total.merge(explore::closure(&move || Sys::graph_only(&m2), &cfg));
+        }
+        total.bound = format!("modules {:?} all created; breadth-first, exact de-duplication, every import graph reachable by <= {} imports x every import (every ordered pair incl. self); repeated from {} fresh managers (hash order of the import sets differs)", gmods, gdepth, roots);
+        out.push(total);
+    }
     for (name, mods, rules, sr1, depth) in plan {
         if !crate::props::wants(opts, name) {
             continue;
@@ -388,5 +423,8 @@ pub fn replay(case: &serde_json::Value) -> crate::props::ReplayResult {
     let sr1 = case["ctx"]["specific_r1"].as_bool().unwrap_or(false);
     let ch = crate::props::choices_of(case);
     let sel = case["ctx"]["selective_reexport"].as_bool().unwrap_or(false);
+    if case["ctx"]["graph_only"].as_bool() == Some(true) {
+        return crate::props::conv(explore::replay(&move || Sys::graph_only(&mods), &ch));
+    }
     crate::props::conv(explore::replay(&move || if sel { Sys::new(&mods, &rules, sr1).with_selective_reexport() } else { Sys::new(&mods, &rules, sr1) }, &ch))
 }
